@@ -202,11 +202,11 @@ func (m *ModStream) WaitEnd() (error, error) {
 // GetStream is a direct Get stream.
 type GetStream struct {
 	baseStream
-	mu       sync.Mutex
-	Got      []*spb.GetResponse
-	FailAt   int // Send number (1-based) at which Send starts failing; 0 = never
-	OnSend   func(n int)
-	nSent    int
+	mu     sync.Mutex
+	Got    []*spb.GetResponse
+	FailAt int // Send number (1-based) at which Send starts failing; 0 = never
+	OnSend func(n int)
+	nSent  int
 }
 
 func (g *GetStream) Send(r *spb.GetResponse) error {
